@@ -2,10 +2,34 @@
 
 package litestream
 
-import "context"
+import (
+	"context"
+
+	"github.com/superfly/ltx"
+)
 
 // VerifPoll runs one poll of the replica client so the external verification
 // harness owns the poll points instead of racing the background ticker.
 func (f *VFSFile) VerifPoll(ctx context.Context) error {
 	return f.pollReplicaClient(ctx)
+}
+
+// VerifVFSPhaseHook, when set, is called synchronously at the named points of
+// the background hydration so the external verification harness can place
+// polls and primary activity between its steps. Without the verif build tag
+// verifVFSPhase is an empty function.
+var VerifVFSPhaseHook func(f *VFSFile, phase string)
+
+func verifVFSPhase(f *VFSFile, phase string) {
+	if h := VerifVFSPhaseHook; h != nil {
+		h(f, phase)
+	}
+}
+
+// VerifHydration reports the state of the background hydration.
+func (f *VFSFile) VerifHydration() (enabled, complete bool, txid ltx.TXID, err error) {
+	if f.hydrator == nil {
+		return false, false, 0, nil
+	}
+	return true, f.hydrator.Complete(), f.hydrator.TXID(), f.hydrator.Err()
 }
